@@ -85,6 +85,7 @@ type FactsRec struct {
 	CodeGen bool     `json:"codegen"`
 	Alpha   []int    `json:"alpha"`
 	MaxLen  int      `json:"maxlen"`
+	Extra   [][]int  `json:"extra"` // longer, pattern-directed strings over the same alphabet (patterns whose matches are longer than maxlen)
 	Facts   Facts    `json:"facts"`
 }
 
@@ -232,7 +233,7 @@ func init() {
 		enc := json.NewEncoder(w)
 		enc.SetEscapeHTML(false)
 
-		emit := func(id int, p Pat, o []string, dia string, isRTL, cg bool, alpha []int, ml int) error {
+		emit := func(id int, p Pat, o []string, dia string, isRTL, cg bool, alpha []int, ml int, extraIn [][]int) error {
 			text := PrintPat(p, PrintOpts{RE2: dia == "re2"})
 			extra := []regexp2.CompileOption{}
 			if cg {
@@ -242,7 +243,14 @@ func init() {
 			if err != nil {
 				return err
 			}
-			return enc.Encode(FactsRec{ID: id, P: p, O: o, Dia: dia, RTL: isRTL, Text: text, CodeGen: cg, Alpha: alpha, MaxLen: ml, Facts: exportFacts(re, alpha)})
+			keep := [][]int{}
+			probe := newSpecProbe(text, optBits(o, dia, isRTL))
+			for _, in := range extraIn {
+				if !probe.heavy(intsToRunes(in), isRTL) {
+					keep = append(keep, in)
+				}
+			}
+			return enc.Encode(FactsRec{ID: id, P: p, O: o, Dia: dia, RTL: isRTL, Text: text, CodeGen: cg, Alpha: alpha, MaxLen: ml, Extra: keep, Facts: exportFacts(re, alpha)})
 		}
 
 		if *caseFile != "" {
@@ -254,6 +262,7 @@ func init() {
 				CodeGen bool     `json:"codegen"`
 				Alpha   []int    `json:"alpha"`
 				MaxLen  int      `json:"maxlen"`
+				Extra   [][]int  `json:"extra"`
 			}
 			data, err := os.ReadFile(*caseFile)
 			if err == nil {
@@ -264,7 +273,7 @@ func init() {
 				return 2
 			}
 			for i, c := range cs {
-				if err := emit(i+1, c.P, c.O, c.Dia, c.RTL, c.CodeGen, c.Alpha, c.MaxLen); err != nil {
+				if err := emit(i+1, c.P, c.O, c.Dia, c.RTL, c.CodeGen, c.Alpha, c.MaxLen, c.Extra); err != nil {
 					fmt.Fprintln(os.Stderr, "compile error:", err)
 					return 2
 				}
@@ -322,7 +331,24 @@ func init() {
 			if len(a) > 5 {
 				a = a[:5]
 			}
-			if err := emit(id, Flatten(t), o, "net", isRTL, cg, a, *maxLen); err != nil {
+			// pattern-directed strings over the same alphabet, longer than the exhaustive bound
+			inAlpha := map[int]bool{}
+			for _, c := range a {
+				inAlpha[c] = true
+			}
+			var extraIn [][]int
+			for _, in := range g.Inputs(t, 10, 14, a) {
+				ok := len(in) > *maxLen
+				for _, c := range in {
+					if !inAlpha[c] {
+						ok = false
+					}
+				}
+				if ok && len(extraIn) < 6 {
+					extraIn = append(extraIn, in)
+				}
+			}
+			if err := emit(id, Flatten(t), o, "net", isRTL, cg, a, *maxLen, extraIn); err != nil {
 				compileErrs++
 				fmt.Fprintf(os.Stderr, "compile error: %v\n", err)
 			}
